@@ -22,7 +22,7 @@ func (c08) ID() string { return "C08" }
 func (c08) Meta(tier string) engine.Meta {
 	return engine.Meta{
 		Level: "model_checking",
-		Rule: "operator tables: two infix symbols (+ *) × {left, right, non-assoc} × binding power {3, 3.5, 4}, one prefix (~) and one postfix (!) symbol (quick: 81 tables with fixed prefix / postfix powers 3.75 / 3.25; thorough: prefix ∈ {3.25,3.75,10} × postfix ∈ {3.25,3.75,11} = 729 tables), plus the built-in table, a table of identifier-like operators and a literal-forms table. For every table ALL token sequences up to the length bound over the family's alphabet are lexed and parsed by the real lexer + parser and by the reference (hand-written scanner + shunting-yard operator-precedence parser): accept / reject must agree, the trees must be identical, and every node's recorded span (rune range, line, column) must equal the span of the tokens it was built from; one family separates tokens by newlines so that lines and columns vary. A case is (family, table, first tokens); its run enumerates every suffix. non-trivial = every case (thousands of sequences each)",
+		Rule: "operator tables: two infix symbols (+ *) × {left, right, non-assoc} × binding power {3, 3.5, 4}, one prefix (~) and one postfix (!) symbol (quick: 81 tables with fixed prefix / postfix powers 3.75 / 3.25; thorough: prefix ∈ {3.25,3.75,10} × postfix ∈ {3.25,3.75,11} = 729 tables), the same 81 shapes at three other magnitudes of binding power (33…1000, 10^6…3·10^7, 0.0001…0.5), plus the built-in table, a table of identifier-like operators and a literal-forms table. For every table ALL token sequences up to the length bound over the family's alphabet are lexed and parsed by the real lexer + parser and by the reference (hand-written scanner + shunting-yard operator-precedence parser): accept / reject must agree, the trees must be identical, and every node's recorded span (rune range, line, column) must equal the span of the tokens it was built from; one family separates tokens by newlines so that lines and columns vary. A case is (family, table, first tokens); its run enumerates every suffix. non-trivial = every case (thousands of sequences each)",
 		Bound: "sequences: full alphabet (13 symbols) length <= 5; operator-only and ternary alphabets (5 symbols) length <= 7 (thorough 9); built-in table (15 symbols) length <= 5; literal forms (9 symbols) length <= 6 (thorough 7)",
 		Assumptions: []string{"precedence semantics: an operator binds an operand while its left power exceeds the right power of what is open to its left; right-associative operators and ?: use the largest power below their own on the right; punctuation, call '(' 12, member '.' and subscript '[' 13, '?' 2 are fixed forms (parser/factory.go)"},
 	}
@@ -61,6 +61,25 @@ func abTables(tier string) [][]ref.Op {
 	return out
 }
 
+// scaledTables: the same declaration shapes at other magnitudes of binding power (large powers,
+// where a float32 step is coarse, and powers below 1).
+func scaledTables(bps []float64, pre, post float64) func(string) [][]ref.Op {
+	return func(string) [][]ref.Op {
+		var out [][]ref.Op
+		fix := []string{"infixl", "infixr", "infixn"}
+		for _, f1 := range fix {
+			for _, b1 := range bps {
+				for _, f2 := range fix {
+					for _, b2 := range bps {
+						out = append(out, []ref.Op{{Sym: "+", BP: b1, Fixity: f1}, {Sym: "*", BP: b2, Fixity: f2}, {Sym: "~", BP: pre, Fixity: "prefix"}, {Sym: "!", BP: post, Fixity: "postfix"}})
+					}
+				}
+			}
+		}
+		return out
+	}
+}
+
 func oneTable(ops []ref.Op) func(string) [][]ref.Op {
 	return func(string) [][]ref.Op { return [][]ref.Op{ops} }
 }
@@ -76,6 +95,9 @@ func c08Families() []c08Family {
 		{"seq", []string{"a", "+", "*", "~", "!", "(", ")", "?", ":", ".", "[", "]", ","}, abTables, 2, func(string) int { return 3 }, " "},
 		{"ops", []string{"a", "+", "*", "~", "!"}, abTables, 3, lenOps, " "},
 		{"tern", []string{"a", "+", "*", "?", ":"}, abTables, 3, lenOps, " "},
+		{"ops-big", []string{"a", "+", "*", "~", "!"}, scaledTables([]float64{33, 40.5, 1000}, 36, 34), 3, func(string) int { return 3 }, " "},
+		{"ops-huge", []string{"a", "+", "*", "~", "!"}, scaledTables([]float64{1e6, 1e6 + 0.5, 3e7}, 2e6, 5e5), 3, func(string) int { return 3 }, " "},
+		{"ops-small", []string{"a", "+", "*", "~", "!"}, scaledTables([]float64{0.25, 0.5, 0.0001}, 0.3, 0.2), 3, func(string) int { return 3 }, " "},
 		{"lines", []string{"a", "+", "*", "~", "!", "(", ")", "?", ":", ".", "[", "]", ","}, func(t string) [][]ref.Op { return abTables("quick")[:9] }, 2, func(string) int { return 3 }, "\n  "},
 		{"builtin", []string{"a", "1", "+", "-", "*", "^", "<", "==", "&&", "!", "not", "?", ":", "(", ")"}, func(string) [][]ref.Op { return [][]ref.Op{real.BuiltInOps()} }, 2, func(string) int { return 3 }, " "},
 		{"identop", []string{"a", "in", "not", "+", "(", ")", "ina"}, oneTable([]ref.Op{{Sym: "in", BP: 3.5, Fixity: "infixn"}, {Sym: "not", BP: 3.75, Fixity: "prefix"}, {Sym: "+", BP: 4, Fixity: "infixl"}}), 2, func(string) int { return 4 }, " "},
